@@ -71,9 +71,8 @@ func naturalTree(operands []zr.Expr, ops []string) (zr.Expr, bool) {
 				cnt++
 			}
 		}
-		if best == 3 && cnt > 1 {
-			return nil, false // chained comparison: not a sentence of the language
-		}
+		// (comparisons share one precedence level and group left to right like the others)
+		_ = cnt
 		l, ok := parse(lo, bi)
 		if !ok {
 			return nil, false
